@@ -90,3 +90,76 @@ LEVEL_TEXT = ("Deductive: every sequential clause of C12 (failure counter, limit
               "Thread interleavings and wall-clock rate limits are not decided by this technique.")
 LEVEL_NOTE = "Trusted: Hypothesis' own max_examples/stateful_step_count enforcement (E2), threading.Event (E5), the Python-subset semantics of pyvc (E9). Sequential only."
 TECHNIQUE = "contract-based deductive verification: AST->z3 VC generation on the real functions (pyvc), sidecar contracts, native replay of counter-models"
+
+
+# ------------------------------------------------------------------------------------------------- stateful phase: one step = at most one request, none after a stop request
+SFX_ = "schemathesis.engine.phases.stateful._executor:"
+STEP = SFX_ + "execute_state_machine_loop.<locals>._InstrumentedStateMachine.step"
+R.exception_classes["FailureGroup"] = "schemathesis.core.failures:FailureGroup"
+R.contract("spec:parent_step", args={"input": Opq("Any")}, returns=Opq("StepOutput"), raises=["schemathesis.core.failures:FailureGroup", "ValueError", "KeyboardInterrupt"], trusted=True,
+           effects={"sent": "ghost('sent') + 1", "parent_outcome": "'ok' if raised is None else raised"}, note="APIStateMachine.step: sends the request of this step and validates the response (E2 / C04)")
+SCTX = "schemathesis.engine.phases.stateful.context:StatefulContext."
+R.opaque_classes["SCtx"] = SCTX.rstrip(".")
+NOTSET_ = Global("schemathesis.core:NOT_SET")
+R.contract(SCTX + "get_step_outcome", args={"self": Opq("SCtx"), "case": Opq("Any")}, returns=OneOf(NOTSET_, NoneT, ExcOf("ValueError")), trusted=True, effects={"cached": "result"},
+           note="outcome cache lookup keyed by hash(case): NOT_SET when the input is new")
+R.contract(SCTX + "store_step_outcome", args={"self": Opq("SCtx"), "case": Opq("Any"), "outcome": Opq("Any")}, returns=NoneT, trusted=True, effects={"stored": "ghost('stored') + 1"}, note="stores the outcome")
+for _m in ("step_succeeded", "step_failed", "step_errored", "step_interrupted"):
+    R.contract(SCTX + _m, args={"self": Opq("SCtx")}, returns=NoneT, trusted=True, effects={"counted_as": "'" + _m + "'"}, note="statistic of the suite")
+
+
+def _failure_group_of_one(it, env=None):
+    o = it.make_exc(it.resolve_class("schemathesis.core.failures:FailureGroup"), ())
+    o.fields["exceptions"] = [it.make_exc(it.resolve_class("schemathesis.core.failures:Failure"), ())]
+    return o
+
+
+if not hasattr(R, "exception_factories"):
+    R.exception_factories = {}
+R.exception_factories["schemathesis.core.failures:FailureGroup"] = _failure_group_of_one
+
+
+def _step_setup(it):
+    from pyvc import extract
+    from pyvc.interp import Env
+    from pyvc.values import VObj
+
+    mod, node, owner, chain = extract.find_def(STEP)
+    env = Env(module=mod)
+    engine = E.Engine(abstract_limit=True).make(it, "engine")
+    env.vars["engine"] = engine
+    env.vars["config"] = VObj(it.resolve_class("spec:EngineConfig"), {"execution": VObj(it.resolve_class("spec:ExecutionConfig"), {"unique_inputs": Bool.make(it, "unique_inputs")})})
+    env.vars["ctx"] = fresh_opaque(it, "SCtx")
+    parent = VObj(it.resolve_class("spec:ParentMachine"), {})
+    env.vars["__super__"] = parent
+    it.ghost["engine"] = engine
+    it.ghost["unique"] = env.vars["config"].fields["execution"].fields["unique_inputs"]
+    return it.make_function(node, mod, env, STEP.partition(":")[2]), {}
+
+
+R.nominal_methods["spec:ParentMachine"] = {"step": lambda it, obj, a, k: it.abstract_call(R.contracts["spec:parent_step"], "spec:parent_step", [a[0]], {}, None)}
+STOPPED = "(ghost('engine').control.stop_event.flag or ghost('engine').control.has_reached_the_failure_limit)"
+R.spec_funcs["NOT_SET_"] = lambda it: NOTSET_.make(it, "NOT_SET")
+R.contract(
+    STEP,
+    prop="C12",
+    setup=_step_setup,
+    args={"self": Obj("spec:Machine"), "input": Obj("spec:StepInput", case=Opq("Case"))},
+    ghost={"sent": 0, "stored": 0, "cached": "not-looked-up", "parent_outcome": "not-called", "counted_as": "nothing", "engine": None, "unique": None},
+    raises=["KeyboardInterrupt", "schemathesis.core.failures:FailureGroup", "ValueError"],
+    ensures={
+        "C12_nothing_sent_after_a_stop_request": "not old(" + STOPPED + ")",
+        "C12_at_most_one_request_per_step": "ghost('sent') <= 1",
+        "C12_unique_inputs_never_resends_a_seen_input": "implies(ghost('unique') and ghost('cached') is not NOT_SET_(), ghost('sent') == 0)",
+        "C12_outcome_stored_after_every_send": "implies(ghost('unique'), ghost('stored') == ghost('sent'))",
+        "C05_returns_only_if_the_step_passed_or_was_seen_passing": "ghost('parent_outcome') == 'ok' or (ghost('sent') == 0 and ghost('cached') is None)",
+    },
+    raises_ensures={
+        "C12_stop_request_means_no_request": "implies(old(" + STOPPED + "), ghost('sent') == 0 and raised == 'KeyboardInterrupt')",
+        "C12_at_most_one_request_per_step": "ghost('sent') <= 1",
+        "C12_outcome_stored_after_every_send": "implies(ghost('unique') and ghost('parent_outcome') != 'KeyboardInterrupt', ghost('stored') >= ghost('sent'))",
+        "C05_failures_propagate_and_are_counted": "implies(ghost('parent_outcome') == 'schemathesis.core.failures:FailureGroup', raised == 'FailureGroup' and ghost('counted_as') == 'step_failed') and "
+                                                  "implies(ghost('parent_outcome') == 'ValueError', raised == 'ValueError' and ghost('counted_as') == 'step_errored')",
+    },
+    replayable=False,
+)
